@@ -1412,8 +1412,21 @@ pub fn run_specs(specs: Vec<ProgSpec>, report: &mut Report, threads: usize, know
     let mut hung: Option<(String, f64, Value)> = None;
     while handles.iter().any(|h| !h.is_finished()) {
         std::thread::sleep(std::time::Duration::from_millis(50));
-        if let Some((_, (t0, call, doc))) = INFLIGHT.lock().iter().find(|(_, (t0, _, _))| t0.elapsed() > CALL_DEADLINE) {
-            hung = Some((call.clone(), t0.elapsed().as_secs_f64(), doc.clone()));
+        let overdue = INFLIGHT.lock().iter().find(|(_, (t0, _, _))| t0.elapsed() > CALL_DEADLINE).map(|(_, (t0, call, doc))| (call.clone(), t0.elapsed().as_secs_f64(), doc.clone()));
+        if let Some(candidate) = overdue {
+            // the wall clock only raises the question. A call is judged "never returns" when, over three seconds, no
+            // thread of this process other than this poller consumes any CPU time (everybody is blocked: a deadlock
+            // or a lost wake-up); a call that spins is caught by the per-call CPU budget instead. While anybody is
+            // still computing - a slow tool, a loaded machine - the answer is "not yet" and polling goes on
+            let me = unsafe { libc::syscall(libc::SYS_gettid) } as u64;
+            let others = |m: &std::collections::BTreeMap<String, (String, u64)>| -> u64 { m.iter().filter(|(tid, _)| tid.parse::<u64>().ok() != Some(me)).map(|(_, (_, c))| *c).sum() };
+            let a = others(&crate::engines::live::thread_cpu(std::process::id()));
+            std::thread::sleep(std::time::Duration::from_secs(3));
+            let b = others(&crate::engines::live::thread_cpu(std::process::id()));
+            let still = INFLIGHT.lock().iter().any(|(_, (t0, _, _))| t0.elapsed() > CALL_DEADLINE);
+            if still && b == a {
+                hung = Some(candidate);
+            }
         }
         if hung.is_some() {
             stop.store(true, std::sync::atomic::Ordering::Relaxed);
@@ -1426,7 +1439,7 @@ pub fn run_specs(specs: Vec<ProgSpec>, report: &mut Report, threads: usize, know
         report.merge(m);
         report.violation(
             format!("model:call-never-returned:{name}"),
-            format!("the sequential call {call} has not returned after {secs:.0} s on a store nobody else is using (the calling thread is still running inside the store)"),
+            format!("the sequential call {call} has not returned after {secs:.0} s on a store nobody else is using, and for three seconds no thread of the process consumed any CPU time (everybody is blocked)"),
             doc,
         );
         return; // the stuck thread is abandoned; the process exits after writing the report
